@@ -101,8 +101,11 @@ def frame_parts(data: bytes) -> typing.Tuple[int, int, typing.Optional[int]]:
 
 def _marshal(frame_type: int, channel_id: int, payload: bytes) -> bytes:
     """Marshal the low-level AMQ frame"""
+    # The size field counts octets: a buffer of wider items (an array, a
+    # memoryview of one) has fewer items than octets
+    size = memoryview(payload).nbytes
     return b''.join([
-        struct.pack('>BHI', frame_type, channel_id, len(payload)), payload,
+        struct.pack('>BHI', frame_type, channel_id, size), payload,
         constants.FRAME_END_CHAR
     ])
 
